@@ -461,3 +461,63 @@ func VerifH_composite_construct() {
 	verifrt.AssertEq(sig, want, "signature = output prefix || ML-DSA signature || traditional signature")
 	verifrt.Reach("end")
 }
+
+// ---------------------------------------------------------------------------------------
+// Component / parameter consistency of composite keys (C14): a composite public key (and so a
+// private key, and every parsed key - the parsers go through NewPublicKey) is accepted iff the
+// embedded ML-DSA key is an unprefixed key of exactly the instance the composite parameters
+// announce and the traditional key has exactly the parameters the draft prescribes for the
+// announced traditional algorithm.
+// ---------------------------------------------------------------------------------------
+
+func VerifH_composite_key_components() {
+	verifrt.EngineOnly()
+	row := cmpTable[verifrt.Choice("combo", 11)]
+	variant := [...]Variant{VariantTink, VariantNoPrefix}[verifrt.Choice("variant", 2)]
+	id := uint32(0)
+	if variant == VariantTink {
+		id = verifrt.Uint32("id")
+	}
+	params, err := NewParameters(row.alg, row.inst, variant)
+	verifrt.Assert(err == nil, "NewParameters")
+	if err != nil {
+		return
+	}
+	var calls []string
+	var clLog []cmpCall
+	cmpStubClassical(&calls, &clLog)
+
+	// embedded ML-DSA public key: any instance, any variant
+	mi := verifrt.Choice("mlinst", 3)
+	mlInst := [...]mldsa.Instance{mldsa.MLDSA44, mldsa.MLDSA65, mldsa.MLDSA87}[mi]
+	mlVar := [...]mldsa.Variant{mldsa.VariantNoPrefix, mldsa.VariantTink}[verifrt.Choice("mlvar", 2)]
+	mlParams, err := mldsa.NewParameters(mlInst, mlVar)
+	verifrt.Assert(err == nil, "mldsa.NewParameters")
+	mlID := uint32(0)
+	if mlVar == mldsa.VariantTink {
+		mlID = verifrt.Uint32("mlid")
+	}
+	mlPub, err := mldsa.NewPublicKey(make([]byte, [...]int{1312, 1952, 2592}[mi]), mlID, mlParams)
+	verifrt.Assert(err == nil && mlPub != nil, "mldsa.NewPublicKey")
+	if err != nil {
+		return
+	}
+	// traditional public key: the one prescribed for any of the 11 rows
+	row2 := cmpTable[verifrt.Choice("clcombo", 11)]
+	clPub, _, _ := cmpClassicalKeys(row2)
+
+	pub, err := NewPublicKey(mlPub, clPub, id, params)
+	mlOK := mlVar == mldsa.VariantNoPrefix && ((row.inst == MLDSA65 && mlInst == mldsa.MLDSA65) || (row.inst == MLDSA87 && mlInst == mldsa.MLDSA87))
+	clOK := row2.alg == row.alg
+	verifrt.Assert((err == nil) == (mlOK && clOK), "NewPublicKey accepts iff the embedded ML-DSA key is an unprefixed key of the announced instance and the traditional key is of the announced algorithm")
+	if err != nil {
+		verifrt.Assert(pub == nil, "no key on error")
+		verifrt.Reach("refused")
+		return
+	}
+	verifrt.Assert(pub.MLDSAPublicKey() == mlPub && pub.ClassicalPublicKey() == clPub && pub.Parameters().Equal(params), "the key reports its components and parameters")
+	gotID, req := pub.IDRequirement()
+	verifrt.Assert(gotID == id && req == (variant == VariantTink), "id requirement")
+	verifrt.AssertEq(pub.OutputPrefix(), cmpWantPrefix(variant, id), "output prefix")
+	verifrt.Reach("accepted")
+}
